@@ -649,6 +649,14 @@ func (g *gen) rawExpr(k kind, depth int, class string) string {
 				if g.pct("patsfx", 50) {
 					pat += ".*" + fmt.Sprint(g.intn("patn", 0, 99)) + "?"
 				}
+				if g.pct("patlen", 40) {
+					// hundreds of distinct patterns that disagree with each other on most operands (bounded memo
+					// tables recycle slots; a stale entry must show as a different answer)
+					pat = fmt.Sprintf("^.{%d,%d}$", g.intn("patlo", 0, 9), g.intn("pathi", 10, 40))
+					if g.pct("patneg", 30) {
+						pat = fmt.Sprintf("^[^%s]{%d}", string(rune('a'+g.intn("patx", 0, 25))), g.intn("patlo2", 1, 6))
+					}
+				}
 				return g.operand(kStr, depth-1, "infix-left:~=") + ` ~= "` + pat + `"`
 			}
 			return g.operand(kStr, depth-1, "infix-left:"+op) + " " + op + " " + g.operand(kStr, depth-1, "infix-right:"+op)
@@ -940,6 +948,20 @@ func (g *gen) piece(depth int) {
 			// data; it must stay a matter of this execution's own scopes, at top level, in loops and in function bodies)
 			g.feat("assign_to_context_variable")
 			g.frames = 0
+			if g.inFn == 0 && g.pct("assigndatainfn", 35) {
+				// ... inside the body of a user function defined and called on the spot
+				g.feat("assign_to_context_variable_in_function_body")
+				f := g.fresh("af")
+				which := g.intn("assigndatafn", 0, 1)
+				if which == 0 {
+					g.tag("<%", "let "+f+" = fn() { s2 = s2 + \"?\" }", "%>")
+				} else {
+					g.tag("<%", "let "+f+" = fn(d) { if (d > 0) { n2 = n2 + d } }", "%>")
+				}
+				g.tag("<%", []string{f + "()", f + "(2)"}[which], "%>")
+				g.tag("<%=", []string{"s2", "n2"}[which], "%>")
+				break
+			}
 			switch g.intn("assigndatawhich", 0, 2) {
 			case 0:
 				g.tag("<%", "n1 = n1 + "+g.operand(kInt, 1, "infix-right:+"), "%>")
@@ -1619,10 +1641,18 @@ func (g *gen) partialPiece(depth int) {
 	g.feat("partial")
 	ext := []string{".html", ".js", "", ".html"}[g.intn("ext", 0, 3)]
 	name := g.fresh("p") + ext
+	if g.pct("oddname", 12) {
+		// names are data: a percent sign, a space, a dash, a slash in them are nobody's format verbs
+		g.feat("partial_odd_name")
+		name = g.fresh("p") + []string{"%20x", "_50%_off", " sp", "-d/sub", "%w%v%s"}[g.intn("oddnamekind", 0, 4)] + ext
+	}
 	layout := ""
 	if g.pct("layout", 30) {
 		g.feat("layout")
 		layout = g.fresh("l") + ".html"
+		if g.pct("oddlayout", 12) {
+			layout = g.fresh("l") + "%d%%.html"
+		}
 	}
 	// the call, in the current template
 	g.frames = 0
@@ -2153,6 +2183,13 @@ func genProgram(t *rapid.T, o genOpts) *Program {
 			continue
 		}
 		g.piece(o.maxDepth)
+	}
+	if o.lateLet && g.pct("scriptnames", 10) {
+		// names RunScript binds for scripts only: a template must never see them
+		g.feat("tolerated_read_of_script_only_names")
+		g.frames = 0
+		g.tag("<%=", "if (println) { return \"P\" } else { return \"-\" }", "%>")
+		g.tag("<%=", "print == nil", "%>")
 	}
 	if o.lateLet && len(p.Tolerant) > 0 && g.pct("latelet", 60) {
 		g.feat("late_let_of_the_tolerated_name")
